@@ -1,16 +1,21 @@
 """Private helpers of C14 (DendroPy-free unless stated): node-level path oracle, deepest common
 ancestor by clade containment, exactness classification of a length pattern, the judge that
 decides whether a reconstructed tree reproduces a generating tree, small workload builders."""
+import math
+
 from .. import ref
 
 TOL = 1e-9
 
 
-def close(a, b, scale=1.0):
+def close(a, b, scale=0.0):
+    """|a - b| <= 1e-9 * max(|a|, |b|, |scale|).  ``scale`` is the magnitude of the quantities the two values
+    were computed from (sum of |edge lengths| for path sums): rounding errors are proportional to it, whatever
+    the unit of the lengths is (no absolute floor: trees whose lengths are all tiny stay judgeable)."""
     if a == b:
         return True
     try:
-        return abs(a - b) <= TOL * max(1.0, abs(a), abs(b), abs(scale))
+        return abs(a - b) <= TOL * max(abs(a), abs(b), abs(scale))
     except TypeError:
         return False
 
@@ -25,15 +30,37 @@ def same(a, b, exact, scale=1.0):
 
 
 def is_exact_spec(spec):
-    """every length is None, an int, or a multiple of 1/1024 below 2**20: all sums the
-    library and the oracle form are then exact in binary floating point."""
+    """every length is None or an integer multiple of one common power of two q with |length| / q < 2**40
+    (ints, dyadic fractions, and either of them scaled by any power of two): all sums of up to 2**12 such
+    terms, in any order and with any signs, are then exact in binary floating point."""
+    qexp = None
+    top = None
     for n in ref.preorder(spec):
         x = n[2]
-        if x is None or isinstance(x, int):
+        if x is None or x == 0:
             continue
-        if abs(x) >= 2 ** 20 or not float(x * 1024).is_integer():
+        if isinstance(x, bool):
             return False
-    return True
+        try:
+            x = float(x)
+        except (TypeError, ValueError, OverflowError):
+            return False
+        if x != x or x in (float("inf"), float("-inf")):
+            return False
+        m, e = math.frexp(abs(x))                 # |x| = m * 2**e, 0.5 <= m < 1
+        mi = int(m * (1 << 53))                   # integer mantissa (exact)
+        low = (mi & -mi).bit_length() - 1         # trailing zero bits
+        q = e - 53 + low                          # x is an odd multiple of 2**q
+        qexp = q if qexp is None else min(qexp, q)
+        top = e if top is None else max(top, e)
+    if qexp is None:
+        return True
+    return top - qexp <= 40
+
+
+def abs_total(spec):
+    """sum of |edge length| over every edge (root edge included): the magnitude rounding errors scale with."""
+    return sum(abs(n[2]) for n in ref.preorder(spec) if n[2] is not None)
 
 
 # ---------------------------------------------------------------------------------------------
@@ -124,10 +151,54 @@ def unit_copy(spec):
 
 
 def is_ultrametric(spec):
+    """all tips equidistant from the root, to 1e-12 relative to that distance (no absolute floor)."""
     rd = [d for n, d, k in ref.root_distances(spec) if not n[3]]
     if not rd:
         return False
-    return max(rd) - min(rd) <= 1e-12 * max(1.0, max(rd))
+    return max(rd) - min(rd) <= 1e-12 * max(abs(max(rd)), abs(min(rd)))
+
+
+def scaled_copy(spec, factor):
+    s = ref.copy(spec)
+    for n in ref.preorder(s):
+        if n[2] is not None:
+            n[2] = n[2] * factor
+    return s
+
+
+def positive_internal(spec):
+    """'a tree with positive internal edge lengths': every non-trivial split of the unrooted tree is induced by
+    edges of positive summed length (unary chains and the two basal edges of a rooted bifurcation count as one
+    edge), and no edge is negative."""
+    if has_negative(spec):
+        return False
+    sl, _ = ref.split_lengths(spec, False)
+    for k, ln in sl.items():
+        if min(len(side) for side in k) >= 2 and not ln > 0:
+            return False
+    return True
+
+
+def pad_to_equal_depth(spec):
+    """copy of spec in which every leaf hangs below a chain of outdegree-1 nodes such that all leaves are
+    the same number of edges away from the root (lengths of the new edges: None; assign afterwards)."""
+    s = ref.copy(spec)
+    pm = ref.parent_map(s)
+    depth = dict((id(n), k) for n, d, k in ref.root_distances(s))
+    lv = ref.leaves(s)
+    if not lv:
+        return s
+    D = max(depth[id(n)] for n in lv)
+    for lf in lv:
+        p = pm[id(lf)]
+        if p is None:
+            continue
+        node = lf
+        for _ in range(D - depth[id(lf)]):
+            node = ref.S(None, [node])
+        if node is not lf:
+            p[3][[id(c) for c in p[3]].index(id(lf))] = node
+    return s
 
 
 def has_negative(spec):
@@ -150,7 +221,7 @@ def judge_reconstruction(S, R, rooted):
         if (n[3] and n[0] is not None) or (not n[3] and n[0] is None):
             return "leafset", "result has a taxon on an internal node or a leaf without taxon"
     D, DR = ref.leaf_paths(S), ref.leaf_paths(R)
-    scale = max([1.0] + [v[0] for v in D.values()])
+    scale = max([0.0] + [abs(v[0]) for v in D.values()])     # relative to the largest distance, no absolute floor
     tol = TOL * scale
     for k in sorted(D):
         if abs(DR[k][0] - D[k][0]) > tol:
